@@ -361,7 +361,39 @@ def instances(formulas, opts=None):
             # instantiated at the extensionality witness
             for pw_fn in (opts.get("pointwise") or []):
                 out.append(pw_fn(x))
+    if opts.get("zero_body", False) and len(sig_apps) <= 40:
+        # a sum whose summand vanishes on the whole range is 0 (Skolemised: the witness x is chosen by the solver)
+        for sd, e in sig_apps:
+            if not _indicator(sd.body):
+                continue      # only counting sums (indicator summands): keeps the instance set small
+            lo, hi = e.arg(0), e.arg(1)
+            args = [e.arg(i) for i in range(2, e.num_args())]
+            x = z3.Int(f"zb!{e.get_id()}")
+            zero = z3.IntVal(0) if z3.is_int(e) else RV(0)
+            out.append(z3.Implies(z3.Implies(z3.And(lo <= x, x < hi), sd.body_at(x, args) == zero), e == zero))
+    if opts.get("ext_tail", False) and len(sig_apps) <= 40:
+        # zero tail (split + empty contribution): same lower bound, hi1 <= hi2, bodies agree on [lo, hi1), second body vanishes
+        # on [hi1, hi2)  ==>  equal sums   (Skolemised like extensionality; e.g. a row padded with zeros beyond its length)
+        for (sd1, e1), (sd2, e2) in itertools.permutations(sig_apps, 2):
+            if e1.sort() != e2.sort():
+                continue
+            lo1, hi1, lo2, hi2 = e1.arg(0), e1.arg(1), e2.arg(0), e2.arg(1)
+            if not z3.simplify(lo1 - lo2).eq(z3.IntVal(0)) or z3.simplify(hi1 - hi2).eq(z3.IntVal(0)):
+                continue
+            if sd1 is not sd2 and not (_indicator(sd1.body) and _indicator(sd2.body)):
+                continue      # candidates: the same summand over two ranges, or two counting sums
+            x = z3.Int(f"tail!{e1.get_id()}!{e2.get_id()}")
+            a1 = [e1.arg(i) for i in range(2, e1.num_args())]
+            a2 = [e2.arg(i) for i in range(2, e2.num_args())]
+            b1, b2 = sd1.body_at(x, a1), sd2.body_at(x, a2)
+            zero = z3.IntVal(0) if z3.is_int(e1) else RV(0)
+            out.append(z3.Implies(z3.And(hi1 <= hi2, z3.Implies(z3.And(lo1 <= x, x < hi1), b1 == b2),
+                                         z3.Implies(z3.And(hi1 <= x, x < hi2), b2 == zero)), e1 == e2))
     return out
+
+
+def _indicator(b):
+    return z3.is_app(b) and b.decl().kind() == z3.Z3_OP_ITE and all(z3.is_int_value(c) or z3.is_rational_value(c) for c in b.children()[1:])
 
 
 def saturate(formulas, rounds=2, opts=None):
